@@ -1093,6 +1093,7 @@ impl<'a, 'b> GeneratorState<'a> {
         let mut switchnextstatement_label =
             format!(".switchnextstatement{}", self.local_label_counter_if);
         debug!("Cases : {:?}", cases);
+        let mut compared_before = false;
         for (case, is_last_element) in cases
             .iter()
             .enumerate()
@@ -1101,9 +1102,16 @@ impl<'a, 'b> GeneratorState<'a> {
             self.local_label_counter_if += 1;
             let switchnextcase_label = format!(".switchnextcase{}", self.local_label_counter_if);
             let mut jmp_to_next_case = false;
+            // The selector in the accumulator is compared with zero through the flags it left,
+            // which a previous case's CMP has replaced: in that case compare explicitly
             match case.0.len() {
                 0 => (),
                 1 => {
+                    if compared_before && matches!(e, ExprType::A(_)) && case.0[0] == 0 {
+                        self.asm(CMP, &ExprType::Immediate(0), pos, false)?;
+                        self.flags = FlagsState::A;
+                    }
+                    compared_before = true;
                     self.generate_condition_ex(
                         &e,
                         &Operation::Eq,
@@ -1116,6 +1124,11 @@ impl<'a, 'b> GeneratorState<'a> {
                 }
                 _ => {
                     for i in &case.0 {
+                        if compared_before && matches!(e, ExprType::A(_)) && *i == 0 {
+                            self.asm(CMP, &ExprType::Immediate(0), pos, false)?;
+                            self.flags = FlagsState::A;
+                        }
+                        compared_before = true;
                         self.generate_condition_ex(
                             &e,
                             &Operation::Eq,
